@@ -57,7 +57,7 @@ def check(ops, init_state, apply, max_nodes=400000):
                 if dfs(mask | 1 << i, state, depth + 1):
                     return True
             ns, r = apply(state, o['op'])
-            if r == o['res']:
+            if r == o['res'] or o.get('anyres'):
                 if dfs(mask | 1 << i, ns, depth + 1):
                     return True
         return False
@@ -92,6 +92,23 @@ def op_keys(op):
     if name in WRITES and 'k' in op:
         return {repr(op['k'])}
     return set()
+
+
+def expand_setdefault(ops):
+    """Index.setdefault is documented (and anchored) as a get/add loop: model
+    a top-level call as up to two atomic insert attempts (result immaterial,
+    the second optional) plus the final lookup that produced its result."""
+    out = []
+    for h in ops:
+        if h['op'].get('op') != 'setdefault' or h.get('ret') is None or h['res'][0] != 'ok':
+            out.append(h)
+            continue
+        add = {'op': 'add', 'k': h['op']['k'], 'v': h['op']['v']}
+        a1 = dict(h, op=add, anyres=True, tolerate=False)
+        a2 = dict(h, op=add, anyres=True, tolerate=False, ret=None)
+        g = dict(h, op={'op': 'getitem', 'k': h['op']['k']}, tolerate=False)
+        out.extend([a1, a2, g])
+    return out
 
 
 def mark_tolerated_misses(ops, lookups=('get', 'getitem', 'read'), miss=None):
